@@ -7,6 +7,12 @@ COMMON_TRUST = [
 CODEC_RULE = "every message type x decoding parameter (Prio3 Count/Sum/Histogram/SumVec with 2-5 aggregators, Poplar1 with several bit lengths incl. 0, Prio2, ping-pong, primitives): honest encodings from real protocol runs, truncations, extensions, single-byte mutations, every alphabet value in first/last byte, all strings of length <= 2-3 over {00,01,7f,80,fe,ff}, header extremes (level 0xFFFF, counts 2^32-1, unknown tags), random strings; non-trivial = every case (each is a decode of a distinct byte string);"
 POP = "Poplar1 over a recording XOF and the IDPF PRG recorder (the model recomputes every step from the two tables): "
 PROPS = {
+    "C15": {
+        "modules": ["PrioProofs.Props.C15"],
+        "rule": "every layer through the verif-hooks wrappers on random and planted tapes (extreme first words): uniform_below for 19 bounds (1, word boundaries 2^32 +-1, 2^64 +-1, 2^128, 3^50, a 142-bit bound), Bernoulli and Bernoulli-exp1 for 14 fractions incl. unreduced and 64-bit denominators, Bernoulli-exp and geometric for 9 parameters incl. 0 and >1, Laplace for 9 scales incl. 0 and 2^40/3, Gaussian for 8 sigmas incl. 0 and 1000/7; value and bytes consumed compared; add_noise for SumVec (both fields), Histogram, L1BoundSum with 5 epsilons: output vector and bytes consumed; exhaustive: every raw draw for bounds 1..130 (thorough 600) and every Bernoulli n/d with d <= 24 (thorough 64); frequency tests with 120k (thorough 1M) samples; non-trivial = all;",
+        "trusted": COMMON_TRUST + ["rand's Fill impl for [u32] and num-bigint/num-rational arithmetic (observed through the correspondence)"],
+        "assumptions": ["the random source delivers independent uniform bytes (the property is conditional on it)", "Laplace / Gaussian normalisation: oracle only"],
+    },
     "C03": {
         "modules": ["PrioProofs.Props.C03"],
         "rule": "%sbit lengths {1,2,3,5,8,16,33} (thorough 12 lengths up to 130): batches with repeated inputs, admissible sequences of 1-4 levels incl. the leaf level, sorted candidate sets mixing prefixes of the inputs, siblings and random strings; every shard, verify_init (both aggregators), both verifier_shares_to_message rounds and both verify_next rounds as a correspondence case; unshard vs plain counts; heavy-hitters loop on 4/8/12-bit inputs; thorough: a 21850-bit tree at levels 21845-21848; non-trivial = all;" % POP,
